@@ -1,4 +1,4 @@
-PROFILE = {"weights": [4, 3, 1, 1, 2, 1, 2, 1, 0, 0], "act": {"tick": 6, "connect": 5, "feed": 10, "connect_result": 6, "plan": 2, "peer_close": 3, "peer_reset": 3, "garbage": 2}}
+PROFILE = {"weights": [4, 3, 1, 1, 2, 1, 2, 1, 0, 0], "act": {"tick": 6, "connect": 5, "feed": 10, "connect_result": 6, "plan": 2, "peer_close": 3, "peer_reset": 3, "garbage": 2, "multi": 3}}
 ASSUME = ["each connection carries at most one CER; an outbound connection never claims to be a different configured peer",
           "a connection belongs to the peer it was dialled to, or to the Origin-Host of the CER that was answered 2001 on it"]
 
@@ -16,4 +16,6 @@ def plans(tier):
 def enum_plans(tier):
     th = tier == "thorough"
     return [dict(cfg="A", depth=6 if th else 5, maxtime=2, alpha=["cerok", "dpr", "garbage"], faults=True, maxconn=2),
+            # two connections deliver undecodable bytes / are closed at the same instant (both signal the node within one cycle)
+            dict(cfg="HOLD2", depth=5 if th else 4, maxtime=2, alpha=["cerok", "garbage2", "close2", "garbage"], faults=False, maxconn=2),
             dict(cfg="B", depth=6 if th else 5, maxtime=3, alpha=["ceaok", "dpr"], faults=True, maxconn=2)]
